@@ -26,6 +26,9 @@ def single_hop_findings():
 
 def check(run, replay=None):
     G.OPENERS[0] = G.DOC_OPENERS      # (inherited by the forked replay workers)
+    # in a chain the ORDER of a Literal's members is part of the type (nothing on the way may sort or de-duplicate them): members written
+    # in descending order
+    G.TYP["Lit"], G.LIT_MEMBERS["Lit"] = "Literal['b', 'a']", ["b", "a"]
     run.rule = ("behaviour = (chain of 2..5 formats, interface of 1..2 parameters in the common representable domain: scalar / "
                 "Optional[scalar] / Literal types, every parameter has a default); distinct = distinct (chain, interface)")
     run.assumptions += ["inside a chain the code formats are used with emit_default_doc=False and ReST docstrings, the "
